@@ -8,6 +8,17 @@ P = real do_math(), D = real do_math(primal=False), both read as exact-rational 
 Bound patterns per variable (free, >=0, <=0, finite lower, finite upper, both, fixed at zero,
 fixed at a non-zero value) are enumerated; equality and inequality rows; cone variables in one
 or two cones; ro models (robust counterparts) as well.
+
+Exponential-cone blocks (gcp.py:314-340).  RSOME states the dual cone through the primal one:
+(u, v, w) in K_exp*  <=>  (d0, d1, d2) = (u - w, v, -u) in K_exp, and links d to the multipliers of the
+primal triple.  The only fact about exp that weak duality needs is the pairing inequality
+    (a, b, c) in K_exp  and  (d0, d1, d2) in K_exp   ==>   -d2*a + d1*b - (d0 + d2)*c >= 0
+(the inner product of a cone point with a dual-cone point; for c, d2 > 0 it is  b*d1 >= c*d2*e^{a/c + d0/d2}
+>= c*d2*(1 + a/c + d0/d2)).  Cone memberships occur only as hypotheses of the weak-duality query, so they
+are replaced by their consequences (this inequality per primal/dual cone pair in order, b, c, d1, d2 >= 0):
+unsat of the relaxed QF_NRA query proves weak duality for the true cone.  The zero gap and the solvability of
+the dual are existential claims and are shown by witnesses (the real ECOS solutions of both real formulas,
+checked against both programs with the true exp, tolerance 1e-6).
 """
 from fractions import Fraction
 import itertools
@@ -33,8 +44,11 @@ META = dict(
     bounds='LP: <= 3 variables, every tuple of the 14 bound patterns for 2 variables (quick) / 3 variables (thorough, '
            'seeded subset), 1-3 rows mixing <=, >=, ==; SOC: norm-2/sumsqr/rsocone members with shared cone variables; '
            'ro: members of the C01 core family with LP/SOC counterparts',
-    outside='exponential-cone and LMI dual blocks (gcp.py:314-373): need the conjugate of exp; not decidable here',
-    assumptions=['LP strong duality is not assumed: optima of both programs are computed exactly and compared'],
+    outside='LMI dual blocks (gcp.py:341-373); exponential-cone blocks: weak duality is decided for all feasible pairs '
+            '(relaxed QF_NRA), the zero gap only at the ECOS witnesses (tolerance 1e-6)',
+    assumptions=['LP strong duality is not assumed: optima of both programs are computed exactly and compared',
+                 'exp-cone pairing inequality <(a,b,c),(u,v,w)> >= 0 for K_exp x K_exp* (textbook fact about exp), '
+                 'instantiated for the i-th primal cone with the i-th dual cone'],
 )
 
 
@@ -112,6 +126,171 @@ def soc_desc(k):
     return build
 
 
+def exp_desc(k):
+    def build():
+        from rsome import ro
+        import rsome as rso
+        m = ro.Model()
+        x = m.dvar(3)
+        if k == 0:
+            m.st(rso.exp(x[1]) <= x[0], x[1] >= 0.5, x[2] == 1)
+            m.min(x[0] + x[2])
+        elif k == 1:
+            m.st(rso.log(x[0]) >= x[1], x[0] <= 4, x[2] >= 0, x[2] <= 1)
+            m.max(x[1] - x[2])
+        elif k == 2:
+            m.st(rso.expcone(x[0], x[1], x[2]), x[1] >= -1, x[2] >= 0.5, x[2] <= 2)
+            m.min(x[0] - 0.5 * x[1] + 0.25 * x[2])
+        elif k == 3:
+            m.st(rso.pexp(x[1], x[2]) <= x[0], x[1] >= 0.25, x[2] >= 1, x[2] <= 3)
+            m.min(x[0] + x[2] * 0.5)
+        elif k == 4:
+            # exponential and second-order cones together (the keep_idx branch of the dual)
+            m.st(rso.exp(x[1]) <= x[0], rso.norm(x[1:3], 2) <= 1.5, x[1] + x[2] >= 1)
+            m.min(x[0] - x[2])
+        elif k == 5:
+            m.st(rso.softplus(x[0:1]) <= x[1], x[0] >= 0.5, x[2] == 0)
+            m.min(x[1] + x[2])
+        elif k == 6:
+            m.st(rso.entropy(x[0:2]) >= 0.5, x[0] + x[1] == 1, x >= 0, x[2] <= 1)
+            m.min(x[0] - x[2])
+        elif k == 7:
+            m.st(rso.entropy(x) >= 0.5, x.sum() == 1, x >= 0)
+            m.min(x[0] - x[1])
+        elif k == 8:
+            m.st(rso.kldiv(x, np.array([0.25, 0.25, 0.5]), 0.125), x.sum() == 1, x >= 0)
+            m.min(x[0] - 2 * x[1])
+        elif k == 9:
+            m.st(rso.exp(x[0:2]).sum() <= x[2], x[0] - x[1] == 0.5, x[0] >= -1)
+            m.min(x[2] - x[1])
+        return m
+    return build
+
+
+EXP_QUICK = [0, 1, 2, 3, 4, 5, 6]
+EXP_ALL = list(range(10))
+
+
+def soc_paired(P, D):
+    return len(P.qmat) == len(D.qmat) and all(len(a) == len(b) for a, b in zip(P.qmat, D.qmat))
+
+
+def relaxed(C, vs, soc=True):
+    """Linear rows, bounds, (optionally) second-order cones, and for each exponential-cone triple only
+    b >= 0, c >= 0; with soc=False only head >= 0 is kept of each second-order cone."""
+    cs = C.row_cons(vs) + C.bound_cons(vs)
+    if soc:
+        cs += C.soc_cons(vs)
+    else:
+        cs += [vs[q[0]] >= 0 for q in C.qmat]
+    for (a, b, c) in C.xmat:
+        cs += [vs[b] >= 0, vs[c] >= 0]
+    return cs
+
+
+def pairing(P, D, xs, ys, soc=False):
+    """True facts about pairs of cone members (consequences of the dropped memberships):
+    K_exp x K_exp (RSOME's image of the dual cone): -d2*a + d1*b - (d0+d2)*c >= 0;
+    SOC x SOC: h*g +/- <u, v> >= 0 (Cauchy-Schwarz; the cone is symmetric in the tail)."""
+    out = []
+    for (a, b, c), (d0, d1, d2) in zip(P.xmat, D.xmat):
+        out.append(-ys[d2] * xs[a] + ys[d1] * xs[b] - (ys[d0] + ys[d2]) * xs[c] >= 0)
+    if soc:
+        for qp, qd in zip(P.qmat, D.qmat):
+            tail = sum(xs[i] * ys[j] for i, j in zip(qp[1:], qd[1:]))
+            out.append(xs[qp[0]] * ys[qd[0]] + tail >= 0)
+            out.append(xs[qp[0]] * ys[qd[0]] - tail >= 0)
+    return out
+
+
+def run_exp(case, ses, m, fp, fd, P, D):
+    z3 = z3mod()
+    name = case['name']
+    if P.lmi or len(P.xmat) != len(D.xmat):
+        finding_or = 'the dual formula has %d exponential cones, the primal %d' % (len(D.xmat), len(P.xmat))
+        data = dict(case=case, primal='?', dual='?', dual_status=finding_or)
+        if replay(data):
+            finding(ses, 'C08:%s:gap' % name, '%s: %s' % (name, finding_or), data, 'rsv.props.c08:replay')
+            return
+        raise HarnessError('%s: %s, but the real solver sees no gap' % (name, finding_or))
+    xs = P.z3vars(relax=True)
+    ys = D.z3vars()
+    # witnesses: the real ECOS solutions of the real formulas
+    w = exp_witness(fp, fd, P, D)
+    ses.stats.obligations += 1
+    ses.stats.kinds['exp-zero-gap-witness'] = ses.stats.kinds.get('exp-zero-gap-witness', 0) + 1
+    if w['vp'] is None:
+        ses.stats.obligations -= 1
+        ses.stats.kinds['precondition-not-met'] = ses.stats.kinds.get('precondition-not-met', 0) + 1
+        return
+    ses.stats.nontrivial.add(name)
+    sample = dict(model=name, primal=P.summary(), dual=D.summary(), primal_opt=w['vp'], dual_opt=w['vd'])
+    if w['vd'] is None or abs(w['vd'] + w['vp']) > 1e-6 * (1 + abs(w['vp'])) or w['bad']:
+        data = dict(case=case, primal=str(w['vp']), dual=str(w['vd']), dual_status='ecos')
+        if w['vd'] is not None and not w['bad'] and replay(data):
+            finding(ses, 'C08:%s:gap' % name, '%s: primal optimum %r, dual formula optimum %r (expected %r)'
+                    % (name, w['vp'], w['vd'], -w['vp']), data, 'rsv.props.c08:replay')
+            return
+        ses.stats.undecided += 1
+        ses.stats.notes.append('%s: no usable ECOS witness for the dual (%s)' % (name, w['bad'] or 'not solved'))
+    else:
+        ses.stats.discharged += 1
+        if len(ses.stats.samples) < 8:
+            ses.stats.samples.append(sample)
+    # weak duality for ALL feasible pairs of the true programs (relaxation: see module docstring)
+    drop = bool(P.qmat) and soc_paired(P, D)
+    hyp = relaxed(P, xs, not drop) + relaxed(D, ys, not drop) + pairing(P, D, xs, ys, drop)
+    neg = [P.obj_term(xs) + D.obj_term(ys) < 0]
+    small = len(P.xmat) <= 1
+    to = 20000 if ses.tier == 'quick' else 120000
+    res, model = ses.oblige(name + '/weak-duality/nlsat', hyp, neg, kind='exp-weak-duality', core=small, sample=sample,
+                            twin=True, timeout_ms=to, tactic=('simplify', 'solve-eqs', 'qfnra-nlsat'))
+    if res == 'unknown':
+        ses.retract(name + '/weak-duality/nlsat', 'exp-weak-duality', small)
+        res, model = ses.oblige(name + '/weak-duality', hyp, neg, kind='exp-weak-duality', core=small, sample=sample,
+                                twin=True, timeout_ms=to)
+    if res == 'sat':
+        # the relaxation admits the pair; it is a violation only if the real programs do (true exp)
+        data = dict(case=case, x=[float(fval(model, v)) for v in xs], y=[float(fval(model, v)) for v in ys])
+        if replay(data):
+            finding(ses, 'C08:%s:weak' % name, '%s: feasible pair with c\'x + d\'y < 0 (weak duality fails)' % name,
+                    data, 'rsv.props.c08:replay')
+        else:
+            gap = dict(case=case, primal=str(w['vp']), dual=str(w['vd']), dual_status='ecos')
+            if w['vd'] is not None and replay(gap):
+                finding(ses, 'C08:%s:gap' % name, '%s: primal optimum %r, dual formula optimum %r (expected %r)'
+                        % (name, w['vp'], w['vd'], -w['vp']), gap, 'rsv.props.c08:replay')
+            else:
+                ses.stats.discharged -= 0
+                ses.stats.undecided += 1
+                ses.stats.notes.append('%s: relaxed weak-duality query has a model that is not a real pair (undecided)' % name)
+
+
+def exp_witness(fp, fd, P, D):
+    with quiet():
+        from rsome import eco_solver as S
+        try:
+            sp = S.solve(fp, display=False)
+        except Exception:
+            sp = None
+        try:
+            sd = S.solve(fd, display=False)
+        except Exception:
+            sd = None
+    out = dict(vp=None, vd=None, bad='')
+    if sp is not None and sp.x is not None:
+        out['vp'] = float(sp.objval)
+        bad = P.check_point(sp.x, relax_int=True)
+        if bad:
+            out['bad'] += 'primal witness infeasible %s ' % (bad[:2],)
+    if sd is not None and sd.x is not None:
+        out['vd'] = float(sd.objval)
+        bad = D.check_point(sd.x)
+        if bad:
+            out['bad'] += 'dual witness infeasible %s' % (bad[:2],)
+    return out
+
+
 def ro_desc(name):
     def build():
         from ..rogen import core_specs, desc_from_spec
@@ -154,6 +333,8 @@ def cases(tier, seed, rnd):
         cs.append(dict(kind='soc', name='soc%d' % k, k=k))
     for nm in RO_MEMBERS:
         cs.append(dict(kind='ro', name='ro-' + nm, member=nm))
+    for k in (EXP_QUICK if tier == 'quick' else EXP_ALL):
+        cs.append(dict(kind='exp', name='exp%d' % k, k=k))
     return cs
 
 
@@ -162,6 +343,8 @@ def builder(case):
         return lp_desc(case)
     if case['kind'] == 'soc':
         return soc_desc(case['k'])
+    if case['kind'] == 'exp':
+        return exp_desc(case['k'])
     return ro_desc(case['member'])
 
 
@@ -176,8 +359,10 @@ def run_case(case, ses):
     D = CProg(fd, 'y')
     ses.stats.programs += 1
     if P.xmat or D.xmat or P.lmi:
-        ses.stats.notes.append('%s: exp/LMI blocks - outside the bound' % name)
-        return
+        if case['kind'] != 'exp':
+            ses.stats.notes.append('%s: exp/LMI blocks - outside the bound' % name)
+            return
+        return run_exp(case, ses, m, fp, fd, P, D)
     xs = P.z3vars(relax=True)
     ys = D.z3vars()
     Pc = P.constraints(xs)
@@ -215,9 +400,21 @@ def run_case(case, ses):
             if len(ses.stats.samples) < 8:
                 ses.stats.samples.append(dict(sample, dual_opt=str(vd)))
     # (i) weak duality for all feasible pairs
-    res, model = ses.oblige(name + '/weak-duality', Pc + Dc, [px + dy < 0], kind='weak-duality',
-                            core=lp, sample=sample, twin=True,
-                            timeout_ms=(None if lp else (10000 if ses.tier == 'quick' else 60000)))
+    res = None
+    if not lp and soc_paired(P, D):
+        # cone-pairing relaxation: memberships are only hypotheses here, so they may be replaced by consequences
+        hyp = relaxed(P, xs, False) + relaxed(D, ys, False) + pairing(P, D, xs, ys, True)
+        res, model = ses.oblige(name + '/weak-duality/paired', hyp, [px + dy < 0], kind='weak-duality', core=False,
+                                sample=sample, twin=True, timeout_ms=10000, tactic=('simplify', 'solve-eqs', 'qfnra-nlsat'))
+        if res == 'unknown':
+            ses.retract(name + '/weak-duality/paired', 'weak-duality', False)
+        elif res == 'sat':
+            ses.stats.obligations -= 1          # a model of the relaxation proves nothing: decide the full query
+            ses.stats.kinds['weak-duality'] -= 1
+    if res != 'unsat':
+        res, model = ses.oblige(name + '/weak-duality', Pc + Dc, [px + dy < 0], kind='weak-duality',
+                                core=lp, sample=sample, twin=True,
+                                timeout_ms=(None if lp else (10000 if ses.tier == 'quick' else 60000)))
     if res == 'sat':
         data = dict(case=case, x=[float(fval(model, v)) for v in xs], y=[float(fval(model, v)) for v in ys])
         if replay(data):
@@ -230,6 +427,16 @@ def run_case(case, ses):
         eps = Fraction(1, 10 ** 4) * (1 + abs(vp))
         res, _ = ses.expect_sat(name + '/zero-gap', Pc + Dc + [px + dy <= z3.RealVal(str(eps))], kind='soc-zero-gap',
                                 core=False)
+        if res == 'unknown':
+            # existential claim: a witness suffices - the real ECOS solutions of both real formulas, checked against
+            # the exact programs (tolerance 1e-6)
+            w = exp_witness(fp, fd, P, D)
+            if w['vp'] is not None and w['vd'] is not None and not w['bad'] \
+                    and abs(w['vp'] + w['vd']) <= 1e-6 * (1 + abs(w['vp'])):
+                ses.retract(name + '/zero-gap', 'soc-zero-gap', False)
+                ses.stats.obligations += 1
+                ses.stats.discharged += 1
+                ses.stats.kinds['soc-zero-gap-witness'] = ses.stats.kinds.get('soc-zero-gap-witness', 0) + 1
         if res == 'unsat':
             data = dict(case=case, primal=str(vp), dual='gap', dual_status='gap>eps')
             if replay(data):
@@ -268,7 +475,7 @@ def replay(data, verbose=False):
         m = builder(case)()
         fp = m.do_math()
         fd = m.do_math(primal=False)
-        if getattr(fp, 'qmat', None) or getattr(fd, 'qmat', None):
+        if getattr(fp, 'qmat', None) or getattr(fd, 'qmat', None) or getattr(fp, 'xmat', None) or getattr(fd, 'xmat', None):
             from rsome import eco_solver as S
             sp, sd = S.solve(fp, display=False), S.solve(fd, display=False)
         else:
